@@ -54,8 +54,8 @@ def run(tier, seed):
                                         f"{p}; last blocks {ids[-3:]}", payload))
             if o.get("scope_mismatch"):
                 got, exp = o["scope_mismatch"]
-                failures.append(Failure("C07", f"scope:{'/'.join(got)}!={'/'.join(exp)}@{ids[-1] if ids else 'init'}",
-                                        f"scope after blocks {ids[-3:]} is {got}, the model says {exp}", payload))
+                failures.append(Failure("C07", f"depth:{len(got)}!={len(exp)}@{ids[-1] if ids else 'init'}",
+                                        f"nesting depth after blocks {ids[-3:]} is {len(got)} ({got}), the model says {len(exp)}", payload))
             if o["mkey"] is not None and o["mkey"] not in reps[ftype]:
                 reps[ftype][o["mkey"]] = ids
             st.bump("segments_checked")
